@@ -49,6 +49,14 @@ SymLeq(a, b) == a = b \/ SymLess(a, b)
 RECURSIVE BitLen(_)
 BitLen(x) == IF x = 0 THEN 0 ELSE 1 + BitLen(x \div 2)
 
+RECURSIVE Pow2(_)
+Pow2(k) == IF k = 0 THEN 1 ELSE 2 * Pow2(k - 1)
+
+\* bit i (0 = least significant) of a non-negative symbol
+SymBitAt(s, i) ==
+    LET li == i \div 24
+    IN  IF li >= Len(s) - 1 THEN 0 ELSE (s[Len(s) - li] \div Pow2(i % 24)) % 2
+
 \* number of bits needed for the symbol (0 for zero)
 SymBitLen(s) == IF Len(s) = 1 THEN 0 ELSE 24 * (Len(s) - 2) + BitLen(s[2])
 
